@@ -631,7 +631,7 @@ outer:
 					for _, g := range leak {
 						d = append(d, fmt.Sprintf("goroutine %d [%s] %s", g.ID, g.State, strings.Join(g.Frames, " < ")))
 					}
-					viols = append(viols, Viol{Props: []string{"C06"}, Why: fmt.Sprintf("%d scheduler goroutine(s) still blocked after the directive returned and every started function ended: %s", len(leak), strings.Join(d, "; "))})
+					viols = append(viols, Viol{Props: []string{"C06"}, Why: fmt.Sprintf("%d goroutine(s) started for the directive (by the scheduler, or by the context package for a context derived from the directive's) still blocked after the directive returned and every started function ended: %s", len(leak), strings.Join(d, "; "))})
 				}
 				for _, v := range viols {
 					if len(b.Viols) < 60 {
